@@ -108,8 +108,8 @@ def cutAtPanic : List String → List String
   | x :: xs => x :: cutAtPanic xs
 
 open Eps.Cur in
-def cursorLine (al : Nat) (ops : List Op) : String :=
-  let (a, ao) := ACur.run al ACur.init ops
+def cursorLine (al : Nat) (cap : Nat) (ops : List Op) : String :=
+  let (a, ao) := ACur.run al (ACur.withCapacity al cap) ops
   let (s, so) := SCur.run SCur.init ops
   "cursor " ++ ",".intercalate (cutAtPanic (ao.map showOut)) ++ " | " ++ hexOf a.asBytes ++ " " ++ toString a.len ++ " " ++ toString a.pos ++ " ptrok || " ++
     ",".intercalate (so.map showOut) ++ " | " ++ hexOf s.buf ++ " " ++ toString s.buf.length ++ " " ++ toString s.pos ++ " ptrok"
@@ -362,8 +362,12 @@ def step (st : St) (line : String) : St × Option String :=
         (st, some ("rchunk " ++ showRes (fun (x : Val × Nat) => showVal x.1) (t.deFull H data)))
       | _, _ => (st, some "badval")
   | ["cursor", a, ops] =>
-      match a.toNat?, parseCOps ops with
-      | some al, some ops => (st, some (cursorLine al ops))
+      -- `16`, `16d` (default()), `16c100` (with_capacity(100))
+      let digits := String.ofList (a.toList.takeWhile Char.isDigit)
+      let init := String.ofList (a.toList.dropWhile Char.isDigit)
+      let cap := if init.startsWith "c" then (init.drop 1).toString.toNat?.getD 0 else 0
+      match digits.toNat?, parseCOps ops with
+      | some al, some ops => (st, some (cursorLine al cap ops))
       | _, _ => (st, some "badops")
   | ["xxh", h] => (st, some ("xxh " ++ toString (H (unhex h.toList))))
   | [""] => (st, none)
